@@ -73,20 +73,20 @@ def random_history(job):
             c = rng.randint(1, nc + (2 if rng.random() < 0.2 else 0))
             do({"op": "write", "h": h, "s": s, "t": t, "r": r, "c": c, "v": fresh()})
         elif k < 0.47:
-            do({"op": "addrow", "h": h, "s": s, "t": t, "n": rng.randint(1, 3), "at": rng.choice([0] + list(range(1, nr + 1))),
+            do({"op": "addrow", "h": h, "s": s, "t": t, "n": rng.choice([0, 1, 1, 1, 2, 2, 3, 3]), "at": rng.choice([0] + list(range(1, nr + 1))),
                 "d": fresh() if rng.random() < 0.4 else "e"})
         elif k < 0.59:
-            do({"op": "addcol", "h": h, "s": s, "t": t, "n": rng.randint(1, 3), "at": rng.choice([0] + list(range(1, nc + 1))),
+            do({"op": "addcol", "h": h, "s": s, "t": t, "n": rng.choice([0, 1, 1, 1, 2, 2, 3, 3]), "at": rng.choice([0] + list(range(1, nc + 1))),
                 "d": fresh() if rng.random() < 0.4 else "e"})
         elif k < 0.69 and nr > 1:
-            n = rng.randint(1, min(3, nr - 1))
+            n = rng.randint(0 if rng.random() < 0.12 else 1, min(3, nr - 1))
             at = rng.choice([0] + list(range(1, nr - n + 2)))
             if rng.random() < 0.15:
                 at = rng.randint(1, nr)
                 n = nr - at + 2                                           # one more than there are from `at` on: refused, nothing deleted
             do({"op": "delrow", "h": h, "s": s, "t": t, "n": n, "at": at})
         elif k < 0.79 and nc > 1:
-            n = rng.randint(1, min(3, nc - 1))
+            n = rng.randint(0 if rng.random() < 0.12 else 1, min(3, nc - 1))
             at = rng.choice([0] + list(range(1, nc - n + 2)))
             if rng.random() < 0.15:
                 at = rng.randint(1, nc)
@@ -249,6 +249,13 @@ def run(ctx):
         part = rng.sample(hist, 2500)
     traces = wbcheck.replay(ctx, part, dict(hdr=(0, 0)), label="dump")
     traces += wbcheck.replay(ctx, sim, dict(hdr=(1, 1)), nhandles=2, label="simulate")
+    # counts of zero: inserting or deleting nothing, at the end or at an index, is a no-op of the plain grid
+    zgen = wbcheck.cfg(depth=4, maxr=2, maxc=2, maxt=1, view=False, props=False, names=("T2",), counts=(0,),
+                       ops=["write", "addrow", "addcol", "delrow", "delcol", "save", "open"])
+    zhist, _ = wbcheck.histories_from_dump(ctx, zgen, "Gen_Workbook[zero counts]")
+    zhist = [h for h in zhist if any(o["op"] in ("addrow", "addcol", "delrow", "delcol") for o in h[0])]
+    ctx.extra["generated_histories_zero_counts"] = len(zhist)
+    traces += wbcheck.replay(ctx, zhist if len(zhist) <= 1500 else rng.sample(zhist, 1500), dict(hdr=(0, 0)), label="zero")
     # boundary profiles: the same abstract histories embedded at tile / column-block boundaries (no default fill)
     bgen = wbcheck.cfg(depth=4, maxr=3, maxc=3, maxt=1, view=False, props=False, names=("T2",), defaults=("e",), counts=(1, 2),
                        ops=["write", "addrow", "addcol", "delrow", "delcol", "save", "open"], rowargs=[1, 2, 3], colargs=[1, 2, 3])
